@@ -38,9 +38,12 @@ VARIANT = 'base'
 VARIANTS = ('base', 'empty-payload', 'long-payload', 'no-reports', 'renumbered')
 
 
+CREATION = (760000000000, 3)
+
+
 def plain_bundle(crc=0):
     pri = dict(flags=B.FLAG_REQ_DELETION | B.FLAG_REQ_DELIVERY, crc_type=crc, dest='dtn://node/app', src=SRC + 'app',
-               report_to='dtn://rpt/', ts=(760000000000, 3), lifetime=86400000)
+               report_to='dtn://rpt/', ts=CREATION, lifetime=86400000 * 400)
     payload = b'integrity-protected payload'
     if VARIANT == 'empty-payload':
         payload = b''
@@ -151,6 +154,11 @@ def make_pems():
         'shape-p521-x-short': (ec.SECP521R1(), lambda x, y, n: not x >> 520 and y >> 520),
         'shape-p521-y-short': (ec.SECP521R1(), lambda x, y, n: x >> 520 and not y >> 520),
     }
+    # certificates bound to the security source that are valid only before / only after the middle of 2024
+    windows = {'valid-early': (datetime.datetime(2023, 1, 1, tzinfo=datetime.timezone.utc), datetime.datetime(2024, 4, 30, tzinfo=datetime.timezone.utc)),
+               'valid-late': (datetime.datetime(2024, 5, 15, tzinfo=datetime.timezone.utc), datetime.datetime(2030, 1, 1, tzinfo=datetime.timezone.utc))}
+    for vname in windows:
+        variants[vname] = (ca_key, ca_name, [other_name(SRC)])
     shape_keys = {}
     for (k, (vname, (curve, pred))) in enumerate(sorted(shapes.items())):
         variants[vname] = (ca_key, ca_name, [other_name(SRC)])
@@ -159,7 +167,8 @@ def make_pems():
         vkey = shape_keys.get(vname) or find_key(ec.SECP256R1(), 0xBAD001 + 0x100 * serial)
         bld = (x509.CertificateBuilder().subject_name(x509.Name([x509.NameAttribute(NameOID.COMMON_NAME, vname)]))
                .issuer_name(iss_name).public_key(vkey.public_key()).serial_number(serial)
-               .not_valid_before(now - datetime.timedelta(days=3650)).not_valid_after(now + datetime.timedelta(days=3650))
+               .not_valid_before(windows.get(vname, (now - datetime.timedelta(days=3650), None))[0])
+               .not_valid_after(windows.get(vname, (None, now + datetime.timedelta(days=3650)))[1])
                .add_extension(x509.BasicConstraints(ca=False, path_length=None), critical=True)
                .add_extension(x509.KeyUsage(True, False, False, False, False, False, False, False, False), critical=True)
                .add_extension(x509.ExtendedKeyUsage([x509.ObjectIdentifier('1.3.6.1.5.5.7.3.35')]), critical=False)
@@ -652,6 +661,59 @@ def run_wrong_cert(params, known):
                 samples=[], verdicts=verdicts, report_keys=['verdicts'])
 
 
+def run_cert_validity(params, known):
+    '''The signer's certificate is judged at the time the bundle was created: two certificates bound to
+    the security source, one valid until the end of April 2024 and one from the middle of May 2024 on, each
+    signing a bundle created in January and one created in August 2024.  All four reach ONE long-lived
+    receiver, in every order: exactly the two whose certificate was valid at their creation time are
+    delivered - whatever the receiver verified before.'''
+    import itertools
+    from .. import env as _env
+    _env.load_bp()
+    set_pems(params['pems'])
+    prop = params.get('prop', PROP)
+    global CREATION
+    violations = []
+    kinds = set()
+    keys = []
+    jan = 760000000000
+    aug = jan + 200 * 86400000
+    bundles = {}
+    try:
+        for (cert, when, seq, ok) in (('valid-early', jan, 11, True), ('valid-early', aug, 12, False), ('valid-late', aug, 13, True), ('valid-late', jan, 14, False)):
+            CREATION = (when, seq)
+            bundles[(cert, 'jan' if when == jan else 'aug')] = (source_protect('sign1-x5chain', [1], cert_variant=cert), seq, ok)
+    finally:
+        CREATION = (760000000000, 3)
+    names = sorted(bundles)
+    count = 0
+    for order in itertools.permutations(names):
+        count += 1
+        world = verifier('right', True)
+        case = dict(order=['%s/%s' % n for n in order])
+        for name in order:
+            world.receive(bundles[name][0])
+            world.quiesce()
+        got = sorted(d['ts'][1] for d in world.probe.seen)
+        want = sorted(seq for (_d, seq, ok) in bundles.values() if ok)
+        keys.append('/'.join(case['order']))
+        found = None
+        if world.escaped:
+            found = ('exception-escaped-idle-callback', '%s: %s' % (world.escaped[-1][0], world.escaped[-1][2]))
+        elif got != want:
+            extra = [s2 for s2 in got if s2 not in want]
+            missing = [s2 for s2 in want if s2 not in got]
+            found = ('signature-under-a-certificate-not-valid-at-creation-time-verified' if extra else 'unmodified-bundle-rejected',
+                     'delivered bundles %r; valid at their creation time: %r' % (got, want))
+        if found and found[0] not in kinds:
+            kinds.add(found[0])
+            v = Violation(prop, 'integrity', found[0], dict(), '%r: %s' % (case, found[1])).as_dict()
+            v['case'] = dict(source='sign1-x5chain', protected='', altered='', alteration='certificate validity', keymode='right', with_ca=True, **case)
+            violations.append(v)
+    return dict(name=params['name'], evaluations=count, nontrivial_keys=['validity:%s' % k for k in keys], violations=violations, known=[],
+                samples=[], verdicts={}, report_keys=['verdicts'])
+
+
 def run_key_shapes(params, known):
     '''"Verifies with the right key", over the shapes a right key can have: signer certificates bound to
     the security source whose public point has a leading zero octet in x or in y, on P-256 / P-384 / P-521,
@@ -710,6 +772,7 @@ def run_key_shapes(params, known):
 def scenarios(tier):
     out = []
     pems = make_pems()
+    out.append(dict(name='sign1-certificate-validity', kind='enum', runner='run_cert_validity', params=dict(name='sign1-certificate-validity', pems=pems), weight=2))
     out.append(dict(name='sign1-key-shapes', kind='enum', runner='run_key_shapes', params=dict(name='sign1-key-shapes', pems=pems), weight=2))
     out.append(dict(name='sign1-wrong-certificate', kind='enum', runner='run_wrong_cert',
                     params=dict(name='sign1-wrong-certificate', pems=pems), weight=1))
@@ -744,6 +807,7 @@ def scenarios(tier):
 ASSUMPTIONS = [
     'trusted base: pycose and cryptography primitives; certificate path validation by the harness stand-in for certvalidator',
     'the covered tuple (external AAD, target data, protected bucket, tag/signature, result type, context id) is computed by vmc/oracle/cose_aad.py from the independently decoded bundle',
+    'certificate validity: two certificates valid before / after the middle of 2024, bundles created in January and August 2024, the four combinations in all 24 orders at one receiver',
     'right key, asymmetric case: signer keys on P-256 / P-384 / P-521 whose public point has a leading zero octet in x or y, or (P-521) the top bit of a coordinate set or clear; all keys of the check are derived from fixed scalars',
     'wrong key, asymmetric case: valid signatures under four certificates that do not bind the key to the security source (other NODE-ID, no SAN, DNS SAN only, issuer not trusted)',
     'alterations inside the security block that leave the covered tuple unchanged (unprotected headers, structure) may go either way; removing the integrity block altogether is not detectable without policy and is not judged',
